@@ -46,9 +46,10 @@ def run(chk, replay=None):
                 "root or a script, collateral outputs, required signers, vkey witnesses (key, sigValid), bootstrap "
                 "witnesses (key, chain-code/attributes variant, sigValid); Accept <=> all supplied signatures valid "
                 "/\\ owners(inputs u collateral) witnessed /\\ required witnessed. TLC enumerates every combination "
-                "within the bounds of the .cfg and proves on each the property statement read off Accept, "
+                "within the bounds of the .cfg, plus an ordered slice (2-3 inputs of mixed lock kinds as a sequence, every order, "
+                "every subset of the owners' witnesses: the driver picks output references that sort in that order), and proves on each the property statement read off Accept, "
                 "monotonicity in witnesses, antitonicity in obligations, one-bad-signature-rejects, owner-needed, "
-                "witness kinds do not mix, script inputs neutral. Every case becomes a real transaction of each era "
+                "witness kinds do not mix, script inputs neutral, input order irrelevant. Every case becomes a real transaction of each era "
                 "(pre-Alonzo eras: the cases without collateral / required signers) with real ed25519 keys, real "
                 "Byron addresses (root derived by the driver), invalid signature = one flipped bit / other key / "
                 "other message, judged by the signature entries of the era's UtxoValidationRules. A case = (era, "
@@ -125,6 +126,8 @@ def _key(r):
     def j(xs):
         return "+".join(xs) if xs else "-"
     ins = sorted(lk(l) for l in r["ins"])
+    if r.get("ord"):
+        ins = [">".join(lk(l) for l in r["ord"])]
     coll = sorted(lk(l) for l in r["coll"])
     req = [str(k) for k in sorted(r["req"])]
     vw = ["%d%s" % (w[0], "v" if w[1] else "x") for w in sorted(r["vw"], key=lambda w: (w[0], not w[1]))]
